@@ -1,3 +1,4 @@
+import CffiVerif.Generated.IncludeSteps
 /-!
 Model of `ffi.include()` at run time in generated modules (C34).
 
@@ -21,6 +22,7 @@ Modules are numbered by position in the table; `includes` lists indices in `ffi.
 `ObjId` stands for the identity of a ctype object.
 -/
 namespace CffiVerif.Include
+open CffiVerif.Generated
 
 abbrev ObjId := Nat
 
@@ -59,6 +61,31 @@ instance exceptDecEq {ε α : Type} [DecidableEq ε] [DecidableEq α] : Decidabl
   | .ok _, .error _ => isFalse (fun h => by cases h)
   | .error _, .ok _ => isFalse (fun h => by cases h)
 
+/-! ### The order of steps this model implements, and the recursion bounds it takes from the source
+
+`Generated/IncludeSteps.lean` holds the order in which the C functions perform their steps and the
+`recursion > N` bounds, re-extracted every run; `Props/C34.lean` (`lookup_order_is_source`) proves by
+`decide` that they are the ones written here. -/
+
+/-- `libLookup` / `libGetattr`: own table first; on a miss the in-order scan of every included lib
+    (recursively); only after the scan the early exit for recursive frames; at top level AttributeError. -/
+def modelLibSteps : List IncludeSteps.Step :=
+  [.ownTable, .scanIncludes, .earlyExitIfRecursive, .attributeError]
+
+/-- `fetch` / `fetchList`. -/
+def modelFetchStructSteps : List IncludeSteps.Step :=
+  [.nullCheck, .depthGuard, .searchInclude, .skipIfAbsent, .realizeIfOrigin, .recurse, .propagate, .notFound]
+
+/-- `fetchConst`. -/
+def modelFetchConstSteps : List IncludeSteps.Step :=
+  [.ownTable, .scanIncludes, .depthGuard, .recurse, .propagate, .notFound]
+
+/-- Fuel of a first call (`recursion = 0`): frames with `recursion ≤ N` may loop, i.e. `N + 1` nested
+    self-calls (each adds `…RecursionStep = 1`) before the guard `recursion > N` fires. -/
+def structFuel : Nat := IncludeSteps.fetchStructRecursionLimit + 1
+def constFuel : Nat := IncludeSteps.fetchConstRecursionLimit + 1
+def libFuel : Nat := IncludeSteps.libRecursionLimit + 1
+
 /-- The `for` loop of `_fetch_external_struct_or_union` over `included_ffis`; `deeper` is the
     recursive call with `recursion + 1`. -/
 def fetchList (mods : Mods) (name : String) (isUnion : Bool)
@@ -94,7 +121,7 @@ def realizeStruct (mods : Mods) (k : Nat) (name : String) : Except Err ObjId :=
     | some s =>
       if !s.external then .ok s.obj
       else
-        match fetch mods name s.isUnion 101 m.includes with
+        match fetch mods name s.isUnion structFuel m.includes with
         | .error e => .error e
         | .ok (some o) => .ok o
         | .ok none => .error .ffiError       -- "should come from ffi.include() but was not found"
@@ -149,7 +176,7 @@ def libLookup (mods : Mods) (name : String) : Nat → Nat → Except Err (Option
 
 /-- `getattr(lib, name)` at top level (`recursion == 0`): not found is `AttributeError`. -/
 def libGetattr (mods : Mods) (k : Nat) (name : String) : Except Err (Nat × GKind) :=
-  match libLookup mods name 101 k with
+  match libLookup mods name libFuel k with
   | .error e => .error e
   | .ok (some r) => .ok r
   | .ok none => .error .attributeError
